@@ -58,7 +58,11 @@ def is_dyn_call(term):
     c = term.func.const
     fn = strip_generics(c.get('fn', ''))
     if fn in ('std::ops::Fn::call', 'std::ops::FnMut::call_mut', 'std::ops::FnOnce::call_once'):
-        return c.get('rk') in (None, 'virtual') or not c.get('rfn')
+        if c.get('rk') in (None, 'virtual') or not c.get('rfn'):
+            return True
+        # Box<dyn Fn..>: resolves to Box's forwarding impl, the target is still caller-supplied
+        if c['rfn'].startswith('<std::boxed::Box<F, A> as std::ops::Fn') and c.get('targs') and 'dyn ' in c['targs'][0]:
+            return True
     return False
 
 
